@@ -345,9 +345,15 @@ Do(op) ==
 
 \* spec -> code: the history by which TLC first reached a state is printed when
 \* the state is expanded, i.e. once per distinct abstract state
-Emit == Dump => PrintT(<<"MBT", ToJson([h |-> hist, lab |-> SetToSeq(lab)])>>)
+\* (of the states reached through a known finding only those with short histories)
+Emit == (Dump /\ (P.taint = {} \/ Len(hist) <= 3)) => PrintT(<<"MBT", ToJson([h |-> hist, lab |-> SetToSeq(lab)])>>)
 
-Next == Emit /\ Len(hist) < MaxOps /\ \E op \in Ops(S) : Do(op)
+\* states reached through a known-finding situation are judged (invariants) and
+\* printed for replay, but not expanded (unless ExploreTainted)
+Next == /\ Emit
+        /\ ExploreTainted \/ P.taint = {}
+        /\ Len(hist) < MaxOps
+        /\ \E op \in Ops(S) : Do(op)
 
 Spec == Init /\ [][Next]_vars
 
@@ -370,7 +376,4 @@ View  == <<S, P, lab, Len(hist)>>
 \* complete (unbounded) search: the abstract state alone
 ViewU == <<S, P, lab>>
 
-\* states reached through a known-finding situation are judged (invariants) and
-\* printed for replay, but not expanded (unless ExploreTainted)
-Bound == ExploreTainted \/ P.taint = {} \/ (Emit /\ FALSE)
 =============================================================================
